@@ -159,6 +159,12 @@ def check(case, ctx):
                 if st != 'ok' or not lib.close(m, ref, 1e-6 + 1e-9 * sum(abs(v) for v in exp.values())):
                     ctx.fail('mass-of-written', ref, m, call=call, written=w)
                 if hill and sep == '' and st == 'ok':
+                    given = dict(comp)
+                    for mono in (True, False):      # the composition is the caller's: asking for its mass leaves it alone
+                        lib.call(p.chem_mass, given, mono)
+                        if given != comp:
+                            ctx.fail('chem_mass-changes-its-argument', comp, given, call=['chem_mass', comp, mono])
+                            break
                     st2, m2 = lib.call(p.chem_mass, dict(comp))
                     if st2 != 'ok' or not lib.close(m2, ref, 1e-6 + 1e-9 * sum(abs(v) for v in exp.values())):
                         ctx.fail('mass-of-composition', ref, m2, call=['chem_mass', comp])
